@@ -272,6 +272,9 @@ func (rb *ReadBuf) GetCmd() commands.Command {
 func (rb *ReadBuf) GetBool() bool {
 	b := rb.GetByte()
 	if b != 0 && b != 1 {
+		if options.Action == "server" {
+			panic(fmt.Sprint("invalid boolean value from client ", b))
+		}
 		Fatal("invalid boolean value from server", b, string(b))
 	}
 	trace.ClientServer.Println("    <-", b == 1)
